@@ -251,8 +251,8 @@ def stub_sp_save(interp, b):
 
 class JobInit(FSContract):
     target = f"{JOB}.Job.init"
-    properties = ("C02", "C03", "C09", "C11")
-    shard_bits = 2
+    properties = ("C02", "C03", "C08", "C09", "C11")
+    shard_bits = 3
     inline = GETTERS + (f"{JOB}.Job.statepoint", f"{JOB}._StatePointDict.__init__", f"{PRJ}.Project._register")
     callees = {"signac._utility._mkdir_p": stub_mkdir_p, f"{JOB}._StatePointDict.load": stub_sp_load, f"{JOB}._StatePointDict.save": stub_sp_save}
 
@@ -265,6 +265,13 @@ class JobInit(FSContract):
         proj = mk_project(ex)
         job = mk_job(interp, proj, "me")
         p, me = proj.p, job.me
+        ctx.ghost["stale_cached"] = False
+        if job.fields["_statepoint_requires_init"] is False and ex.decide(None, "pre:the read-only cached state point is stale (the handle was re-keyed)"):
+            # reachable: a state point change through a materialised handle does not refresh _cached_statepoint (design note F4)
+            stale = z3.Const("sp_stale_cached", SPv)
+            ex.assume(stale != NONEV)
+            job.fields["_cached_statepoint"] = SSP(stale)
+            ctx.ghost["stale_cached"] = True
         ctx.ghost["knows_sp"] = job.fields["_cached_statepoint"] is not None or job.fields["_statepoint_requires_init"] is False
         if job.fields["_cached_statepoint"] is None:
             # a handle opened by id without cache entry: creating the job is only possible once the state point is known
@@ -314,7 +321,7 @@ class JobInit(FSContract):
             else:
                 ex.oblige(self.oname("ensures:job_directory_exists"), fs.dirs[k])
                 ex.oblige(self.oname("ensures:noop_if_directory_exists"), z3.Implies(fs0.dirs[k], fs.eq(fs0)))
-            for lab, c in inv_job(ctx, job):
+            for lab, c in inv_job(ctx, job, require_cached_fresh=not ctx.ghost["stale_cached"]):
                 ex.oblige(self.oname("inv:" + lab), c)
         else:
             exc = outcome[1]
